@@ -545,6 +545,7 @@ func shortName(full string) string {
 
 func (t *Task) verifyFunc(fn *ssa.Function, con *FuncContract) {
 	t.curFn = fullName(fn)
+	t.rootCon = con
 	for _, c := range con.Clauses {
 		if c.Kind == "mode" && strings.TrimSpace(c.Expr) == "absmul" {
 			t.absMul = true
